@@ -49,14 +49,16 @@ C16Step(pre, ev) ==
 \* predicates shared by all cache types, selected by PROP; policy property id: C06
 Generic(pre, ev) ==
   \* (IF .. THEN TRUE ELSE ..: inside an action TLC evaluates BOTH sides of a disjunction)
-  IF ev.op = "drop" /\ PROP # "C04" THEN TRUE
-  ELSE IF ev.panic /\ PROP \notin {"C05", "C16", "C06"} THEN TRUE
+  IF ev.op = "drop" /\ PROP \notin {"C04", "C18"} THEN TRUE
+  ELSE IF ev.panic /\ PROP \notin {"C05", "C16", "C18", "C06"} THEN TRUE
   ELSE CASE PROP = "C01" -> C01View(OV(ev.obs)) /\ AccessorsOK(ev.obs)
          [] PROP = "C02" -> C02Step(OV(pre), ev, OV(ev.obs))
          [] PROP = "C03" -> C03Audit(ev.obs) /\ ev.anomalies = <<>>
          [] PROP = "C04" -> C04Event(TokOf(pre), ev, IF ev.op = "drop" THEN <<>> ELSE TokOf(ev.obs))
          [] PROP = "C05" -> ~ev.panic
          [] PROP = "C16" -> C16Step(pre, ev)
+         [] PROP = "C18" -> LET hasObs == "len" \in DOMAIN ev.obs IN
+                            C18Event(ev, hasObs, IF hasObs THEN TokOf(ev.obs) ELSE <<>>, IF hasObs THEN ev.obs.audit ELSE <<>>)
          [] PROP = "C12" -> IF IsPutResult(EvPR(ev))
                             THEN C12Put(OV(pre), ev.k, ev.v, EvPR(ev), OV(ev.obs), FALSE) ELSE TRUE
          [] PROP = "C13" -> /\ ev.obs.stable
